@@ -109,11 +109,85 @@ def mode_exhaustive(ctx, rep, clause):
        'intensities would belong to other peaks', gf.loc(), clause)
 
 
+def match_indexing(ctx, rep, clause):
+    """match indices refer to positions of the m/z list handed to match_spectra: every FragmentMatch must take its
+    fragment from the list that m/z list was derived from (the sorted one), on every branch"""
+    program = ctx.program
+    f = program.func(f'{SC}:get_fragment_matches')
+    src = None
+    for n in walk_own(f.node):
+        if isinstance(n, ast.Assign) and isinstance(n.value, ast.ListComp) and '.mz' in norm_stmt(n.value.elt) and \
+                isinstance(n.targets[0], ast.Name):
+            spectrum_var = n.targets[0].id
+            src = norm_stmt(n.value.generators[0].iter)
+    if src is None:
+        raise AnalysisError('get_fragment_matches: theoretical m/z list not found')
+    k = 0
+    for n in walk_own(f.node):
+        if isinstance(n, ast.Call) and norm_stmt(n.func) == 'FragmentMatch' and n.args:
+            k += 1
+            a = n.args[0]
+            base = norm_stmt(a.value) if isinstance(a, ast.Subscript) else '?'
+            ob(rep, 'SIB-index', f.fq, f'`{norm_stmt(n)[:70]}` indexes the list the m/z values were taken from',
+               base == src, f'{base}', f'the match index refers to positions of `{src}` but the fragment is taken from '
+               f'`{base}`: peaks are attached to the wrong fragments whenever the two lists are ordered differently',
+               f.loc(n), clause)
+    rep.floor('SIB-index', 'FragmentMatch constructions', k, 2)
+    srt = [n for n in walk_own(f.node) if isinstance(n, ast.Assign) and norm_stmt(n.targets[0]) == src and
+           isinstance(n.value, ast.Call) and norm_stmt(n.value.func) == 'sorted' and 'x.mz' in norm_stmt(n.value)]
+    ob(rep, 'SIB-index', f.fq, f'`{src}` is the list sorted by m/z', len(srt) == 1, 'sorted(..., key=lambda x: x.mz)',
+       'the list the theoretical m/z values come from is not sorted by m/z (get_matched_indices needs sorted input)',
+       f.loc(), clause)
+
+
+def closest_metric(ctx, rep, clause):
+    """in 'closest' mode the minimised quantity is the absolute m/z distance |theoretical - observed| of each
+    candidate, computed once (a per-candidate rescaling changes which peak is the closest)"""
+    program = ctx.program
+    f = program.func(f'{SC}:match_spectra')
+    blk = None
+    for n in walk_own(f.node):
+        if isinstance(n, ast.If) and norm_stmt(n.test) == "mode == 'closest'":
+            blk = n
+    if blk is None:
+        raise AnalysisError("match_spectra: branch for mode == 'closest' not found")
+    mins = [c for st in blk.body for c in ast.walk(st) if isinstance(c, ast.Call) and norm_stmt(c.func) == 'min' and c.args]
+    if not mins or not isinstance(mins[0].args[0], ast.Name):
+        raise AnalysisError("match_spectra: min(<distance list>) not found in the 'closest' branch")
+    var = mins[0].args[0].id
+    assigns = [st for st in ast.walk(blk) if isinstance(st, ast.Assign) and norm_stmt(st.targets[0]) == var]
+    ok = False
+    why = f'{len(assigns)} assignment(s) to {var}'
+    if len(assigns) == 1 and isinstance(assigns[0].value, ast.ListComp):
+        lc = assigns[0].value
+        idx = norm_stmt(lc.generators[0].target)
+        e = lc.elt
+        if isinstance(e, ast.Call) and norm_stmt(e.func) == 'abs' and isinstance(e.args[0], ast.BinOp) and \
+                isinstance(e.args[0].op, ast.Sub):
+            ops = {norm_stmt(e.args[0].left), norm_stmt(e.args[0].right)}
+            ok = ops == {'fragments[i]', f'mz_spectra[{idx}]'}
+            why = norm_stmt(e)
+    ob(rep, 'SIB-metric', f.fq, "'closest' minimises |fragment m/z - peak m/z| computed once per candidate", ok, why,
+       f"the list minimised in 'closest' mode is not simply abs(fragments[i] - mz_spectra[idx]) ({why}): a rescaling that "
+       f"differs per candidate can make a farther peak win", f.loc(blk), clause)
+    lg = None
+    for n in walk_own(f.node):
+        if isinstance(n, ast.If) and norm_stmt(n.test) == "mode == 'largest'":
+            lg = n
+    txt = ' '.join(norm_stmt(s_) for s_ in lg.body) if lg is not None else ''
+    ob(rep, 'SIB-metric', f.fq, "'largest' takes the maximum intensity inside the window",
+       'intensity_spectra[indexes[0]:indexes[1]]' in txt and 'max(' in txt, 'max over the window slice',
+       "the 'largest' branch no longer maximises the intensities of exactly the window", f.loc(lg) if lg is not None
+       else f.loc(), clause)
+
+
 def check(ctx, rep):
     rep.explanation = EXPLANATION
     an, program = ctx.analyzer, ctx.program
     attribute_resolution(ctx, rep, 'C17a')
     mode_exhaustive(ctx, rep, 'C17b')
+    match_indexing(ctx, rep, 'C17c')
+    closest_metric(ctx, rep, 'C17b')
     callers = {f.fq for f in program.all_functions() if f.module.name == SC}
     n = add_fwd(rep, forwarding(an, program, ['tolerance_value', 'tolerance_type', 'mode', 'intensity_spectra'],
                                 callers=callers), 'C17c')
